@@ -426,3 +426,50 @@ DEFAULT_LEVEL_NOTE = ("trusted: TLC and the L1 big-number layer (checked against
     "assumed: operands outside the enumerated/recorded sets behave like those inside (no proof over all widths)")
 DEFAULT_TECHNIQUE = "TLA+ specification + TLC; trace validation of recorded calls and replay of TLC-generated tables"
 NOT_APPLICABLE = {}
+
+_T = "explicit TLA+ specification + TLC: "
+LEVELS = {
+ "C01": ("ArithSem!C01Exp defines every add/sub/neg/abs form as a projection of the exact integer result; TLC checks the carry/borrow digit loops (alg/DigitAlgs: unsigned ripple, signed top digit, xor flag combination) for every operand pair at toy digit sizes and the ring homomorphism over whole programs (Machine!RingHom), and judges every recorded call family and every step of TLC-simulated machine behaviours replayed into the real library.",
+         _T + "DigitAlgs/Machine model checking; trace validation of recorded call families; replay of simulated behaviours"),
+ "C02": ("ArithSem!C02Exp (exact product, low half, flag, widening/carrying pair); alg/DigitAlgs!LongMul transcribes long_mul's overflow detection and is checked against the exact product for every operand pair at toy sizes; recorded products at/just below/just above 2^W and 2^(W-1) with all sign combinations are validated on every digit type.",
+         _T + "LongMul model checking; trace validation with boundary-directed products"),
+ "C03": ("ArithSem!C03Exp (truncated, euclidean, floored, ceiling division; zero divisor and MIN/-1 rules); alg/KnuthD is bnum's Algorithm D as a state machine checked for every dividend/divisor pair at (digit bits, digits) = (4,2), (2,4), (3,3) for correctness, quotient-digit bound, no internal overflow and termination, with every rare branch witnessed; recorded divisions use extreme-digit operands that make correction/add-back steps common at every digit size.",
+         _T + "KnuthD model checking (all inputs, toy sizes, liveness); trace validation"),
+ "C04": ("the same specification takes the build mode as a parameter (OOperator, OStrict, ShiftOps): every arithmetic family plus << >> with all 12 primitive right-hand-side types is recorded in a build with and in a build without debug assertions and judged by TLC; the panic outcome is data (catch_unwind), the calibration run shows the specification matches Rust's primitives in both modes.",
+         _T + "mode-parametric semantics; trace validation of two builds; calibration on primitives"),
+ "C05": ("ShiftSem (shift by s, flag/None exactly when s >= BITS, masked amount only for power-of-two widths, rotation by n mod BITS at every width); alg/DigitAlgs checks the digit-shift + bit-shift loops, the sign fill and the rotation for every value and amount at toy sizes and refutes the pinned tree's amount mask at a non-power-of-two width.",
+         _T + "DigitAlgs model checking incl. negative probe; trace validation over all amount classes"),
+ "C06": ("BitSem!C06Exp on the exact bit pattern; counting loops and reversals cross-checked at toy sizes (MC_L2, DigitAlgs); recorded values have k whole extreme digits followed by a partial digit at every granularity.",
+         _T + "bit-pattern semantics; trace validation"),
+ "C07": ("BitSem!C07Exp: all comparison forms (operators, trait methods, inherent const twins), min/max/clamp, hash coherence (equal values hash equally, == iff patterns equal), sign predicates; MSD-first comparison loops model-checked in DigitAlgs.",
+         _T + "order semantics; trace validation of 28 forms per pair"),
+ "C08": ("ArithSem!C08Exp: representability by capped exact power, wrapped value by modular square-and-multiply, logs by binary search cross-checked against the linear definition (MC_L2); recorded (base, exponent) pairs sit at the 2^W / 2^(W-1) boundary, including exponents up to 2^32-1 and power-of-two bases whose exponent products leave u32.",
+         _T + "capped/modular power semantics; trace validation"),
+ "C09": ("ConvSem!C09Exp: a cast is Wrap(target, value); recorded over all 1156 ordered pairs of 34 bnum types, all 12 primitives both ways, bool and char.",
+         _T + "trace validation over the type-pair matrix"),
+ "C10": ("TextSem!ParseStr is the grammar as a set-valued result (InvalidDigit forced only when the string is too short to overflow); alg/RadixAlgs transcribes the power-of-two-radix parser, is checked against the grammar for every digit string up to 6..10 symbols in both digit orders, and refutes the pinned tree's version on leading zeros.",
+         _T + "RadixAlgs model checking incl. negative probe; trace validation of mutated numerals"),
+ "C11": ("TextSem!C11Exp: canonical numeral; the three output routines (exact bit slicing, inexact bit slicing, division by radix powers) are model-checked against the canonical digit list for every value at toy sizes; print-then-parse round trips recorded with the outputs.",
+         _T + "RadixAlgs model checking; trace validation over radices 2..256"),
+ "C12": ("TextSem!FmtText transcribes Formatter::pad_integral / pad_formatted_parts and the exponent form; 1152 literal format strings; the same drivers on u8..u128 / i8..i128 calibrate the transcription against Rust itself in every run.",
+         _T + "formatter semantics calibrated on primitives; trace validation"),
+ "C13": ("ConvSem!C13Exp: Ok exactly when InRange(target, value); recorded with the target's MIN-1..MAX+1 embedded in every source type.",
+         _T + "trace validation over the type-pair matrix"),
+ "C14": ("FloatSem: IEEE-754 decode, truncation/saturation, round-to-nearest-even with carry into the exponent and overflow to infinity, on bit patterns; calibrated against `as` on primitives; widths above 1024 bits included for the f64 infinity boundary.",
+         _T + "float semantics on bit patterns; trace validation of rounding classes"),
+ "C15": ("ConvSem!C15Exp: a slice denotes an unsigned / two's-complement integer and is accepted iff it is in range; exhaustive over the byte alphabet {00,01,7f,80,ff} for 8- and 16-bit types and all lengths 0..2*BYTES+2; nightly byte-array methods through a separate nightly harness.",
+         _T + "trace validation incl. exhaustive small alphabets"),
+ "C16": ("the specification has no digit type; every event lists the digit types that produced its outcome and a second outcome group is a disagreement; narrow/wide commutation (NWExp) and constants (ConstVal) judged by TLC; drivers of ten other properties re-run on widths with four digit types.",
+         _T + "digit-type-free semantics; outcome-group analysis; narrow/wide events"),
+ "C17": ("every trait form is recorded as a form of the inherent family and judged by the inherent semantics (FixedInt!CanonForm); op-assign forms act on real registers in TLC-simulated machine behaviours (a panicking step must leave the register file unchanged); folds against the left fold with per-step panic semantics; both build modes.",
+         _T + "form aliases; Machine model checking; replay of simulated behaviours; trace validation"),
+ "C18": ("NumSem!C18Exp: floored division, gcd by Euclid on exact integers, roots judged relationally (r^n <= |x| < (r+1)^n), forwarders as form aliases; alg/NumAlgs checks the Newton iteration (no overflow, correct, terminating) and the binary gcd for every input at toy widths and refutes the pinned tree's overflowing power.",
+         _T + "relational root oracle; NumAlgs model checking with liveness; trace validation"),
+ "C19": ("FloatSem!C19Exp: Some exactly when representable (set-valued for negative floats truncating to 0 on unsigned targets), ToPrimitive/AsPrimitive against InRange/Wrap.",
+         _T + "trace validation; calibration on primitives"),
+ "C20": ("UniformSem: byte-exact Standard/Fill semantics; range membership; equal preimage counts judged by TLC on complete enumerations of the first RNG word (2^8, 2^16, and 2^24 for the approximate zone); mc/MC_Uniform model-checks the widening-multiply sampler with both zone formulas for every range at word sizes 2..8 (unbiasedness, progress).",
+         _T + "MC_Uniform model checking; trace validation of complete histograms"),
+}
+for _k, (_text, _tech) in LEVELS.items():
+    PROPS[_k]["level_text"] = _text + " Exhaustive within the toy constants of the models; boundary-directed and random on the real code (16 widths 8..1024 bits, every digit type): no proof over all widths."
+    PROPS[_k]["technique"] = _tech
